@@ -456,6 +456,9 @@ def run(chk):
     chk.rule("W5", "ncon/einsum jump moves: every jump emits the parity correction, toggles the other legs, is followed by "
              "collection of same-tensor swaps; every emitted command kind is executed", floor=10)
     run_W5(chk)
+    from . import e3 as _e3
+    # the legs whose parities are read are addressed through the pending permutation in the right direction
+    _e3.run_L1(chk, rule="W7", floor=4, only={"swap_gate", "_swap_gate_charge", "_meta_swap_gate", "_meta_swap_gate_charge"})
     chk.rule("W6", "ncon/einsum: the tables of open edges and of pending swaps are renumbered by the same maps after every command", floor=8)
     run_W6(chk)
     sg = prog.func(CON, "swap_gate")
